@@ -16,7 +16,11 @@ Tie 3 (exact) + component oracle: flagleg.py -- extracted FlagModel.tool_pack (p
   processor / block writer model, the function the "directive effects" theorems are about) vs the working
   tree's block processor + block writer driven by props/C08/h_dedup.c on generated (flag word, content)
   lists: per file block start, size words, fragment reference; fragment table; output bytes.  The
-  statements of the theorems are also evaluated directly on the harness output."""
+  statements of the theorems are also evaluated directly on the harness output.
+Tie 4 (exact): orderleg.py -- extracted OrderModel.order_dir / order_ops (directory scan resp. add operations ->
+  fstree_post_process -> fstree_sort_files on that list -> the list pack_files iterates: the function
+  layout_follows_sort_file is about) vs the real gensquashfs -D/-F -S image of trees with incompressible, pairwise
+  different contents: files by data start offset, files by fragment reference, `packing` lines, acceptance."""
 import ctypes
 import glob as globmod
 import json
@@ -35,6 +39,7 @@ HERE = os.path.dirname(os.path.abspath(__file__))
 sys.path.insert(0, HERE)
 import sqimg  # noqa: E402
 import flagleg  # noqa: E402
+import orderleg  # noqa: E402
 
 LEVEL = "proof"
 ENV = dict(os.environ, ASAN_OPTIONS="detect_leaks=0", LC_ALL="C")
@@ -1048,6 +1053,9 @@ def run(ctx):
         "the one-line Python statement of pack_file used to apply -T on the C side of the component leg",
         "the independent Python statement of the sort-file semantics (py_parse_simple/py_expected) covers only lines of "
         "the simple grammar (decimal priority, optional flag list without quotes, unquoted name)",
+        "props/C17/orderleg.py + driver_order.ml (order leg: case generation, the host tree / add operations handed to the "
+        "extracted order_dir / order_ops - for -F the translation of `dir` / `file` lines into fstree_add_generic calls is "
+        "restated in Python (C16 owns the parser) - and the decoding of data start offsets / fragment references with sqimg.py)",
     ]
     ctx.assumptions += [
         "first_match_wins assumes distinct canonical paths in the file list (true for the nodes of one fstree) and that "
@@ -1056,6 +1064,9 @@ def run(ctx):
         "directive theorems: compressor contract of sqfs/compressor.h (C03/F07 check the real back ends), the pool hands "
         "work back in submission order (C09), no I/O or allocation failure, no 32/64-bit wrap (offsets are unbounded nat); "
         "dont_compress fragment clause: the tail end's fragment reference is not that of an earlier file (else F23)",
+        "layout_follows_sort_file: the paths handed to fstree_add_generic consist of clean components (not empty, no '/', "
+        "not '.' or '..'; for a scanned directory: the host's names); the bytes pack_file reads are a function of the file "
+        "name it opens; fstree_sort_files touches only next_by_type / priority / flags / FLAG_FILE_ALREADY_MATCHED",
     ]
     work = os.path.join(ctx.scratch, "tool")
     os.makedirs(work, exist_ok=True)
@@ -1078,6 +1089,11 @@ def run(ctx):
         elif kind == "flags":
             fres = flagleg.run_leg(ctx, [flagleg.case_of_replay(rp)])
             flagleg.report(ctx, fres, seen)
+            ctx.coverage["evaluations"] = 1
+        elif kind == "order":
+            case = {k: rp[k] for k in ("kind", "id", "mode", "bs", "files", "sortfile", "notail", "jobs", "shuffle")}
+            ores = orderleg.run_leg(ctx, info, [case])
+            finish_order(ctx, info, ores, work, seen)
             ctx.coverage["evaluations"] = 1
         elif kind == "pack":
             cases = [tuple(rp["case"])]
@@ -1126,6 +1142,21 @@ def run(ctx):
     ctx.coverage["distinct_nontrivial"] += fst["with_directive"]
     ctx.coverage.setdefault("distribution", {})["flags_leg"] = dict(fst)
     ctx.add_samples(fres["samples"])
+    # ---- tie 4: the model's packing order vs the data offsets of real images ----
+    n_order = 100 if quick else 3000
+    if tie_broken or ctx.proof_broken:
+        n_order *= 3
+    ocases = orderleg.directed_cases() + orderleg.gen_cases(ctx.seed, n_order)
+    ores = orderleg.run_leg(ctx, info, ocases)
+    ost = ores["stats"]
+    ctx.log("order leg: %d images (%d from a description file), sort file refused %d, reordered %d, mismatches %d"
+            % (ost["cases"], ost["mode_F"], ost["refused"], ost["reordered"], len(ores["bad"])))
+    tie_broken |= finish_order(ctx, info, ores, work, seen)
+    ctx.coverage["evaluations"] += ost["cases"]
+    ctx.coverage["traces_validated_against_impl"] += ost["cases"] - len(ores["bad"])
+    ctx.coverage["distinct_nontrivial"] += ost["reordered"] + ost["refused"]
+    ctx.coverage.setdefault("distribution", {})["order_leg"] = dict(ost)
+    ctx.add_samples(ores["samples"])
     # ---- tool-level oracle (always; more when something broke) ----
     n_tool = 60 if quick else 1500
     if tie_broken or ctx.proof_broken:
@@ -1168,7 +1199,12 @@ def run(ctx):
         "joining / after flush of a fragment block, F23, dont_fragment at sizes around k*block, all-zero blocks / tails / "
         "fragment block, duplicates with dont_deduplicate, self-overlapping runs, -T around one block) x -T x 2 checksum "
         "moduli + seeded random lists (block size 8..64, pool of zero / run-length / random blocks and tails, duplicates, "
-        "flag subsets)" % ctx.seed)
+        "flag subsets); order leg: the Coq example tree x {glob+negative+tie+unlisted, empty, comments, all tied, reversed, "
+        "malformed} x -D/-F + seeded random trees (4..8 files over 23 names incl. blanks, quotes, backslash, glob characters; "
+        "random bytes made pairwise different per block and tail; sizes k*bs + {0,1,17,300,bs-1}, tail-only and empty "
+        "files) x sort files of 1..7 lines (exact / glob / glob_no_path lines, quoted names with escapes, leading '/', './', "
+        "'//', comments, blank lines, CRLF, padded flag lists, int64 edge priorities, ties, 8%% with a malformed line) x -T x -j "
+        "x readdir order / line order of the description file shuffled" % ctx.seed)
 
 
 def finish_sort(ctx, info, t, work, seen, search):
@@ -1208,6 +1244,87 @@ def finish_sort(ctx, info, t, work, seen, search):
     return bool(t["broken"]) or bool(t["prop_bad"])
 
 
+def order_oracle(info, c, work):
+    """C17's order clause stated without the model, on one case of the order leg: the tool's own default order (the
+    `packing` lines of a run without -S), stably sorted by the priority of the first matching line (Python statement,
+    simple grammar only), must be the order of the pack_file calls with -S and the order of the data start offsets.
+    Returns a description of the violation or None."""
+    dirs = py_parse_simple(unhex(c["sortfile"]))
+    if dirs is None:
+        return None
+    base = orderleg.run_real(info, c, work, with_sort=False)
+    real = orderleg.run_real(info, c, work, with_sort=True)
+    if base["rc"] != 0 or real["rc"] != 0:
+        return None
+    default = base["packing"]
+    if sorted(default) != sorted(unhex(p) for p, _ in c["files"]):
+        return None
+    prio = {p: py_assign(dirs, py_canon(p))[0] for p in default}
+    want = sorted(default, key=lambda p: prio[p])
+    if real["packing"] != want:
+        return ("files packed in order %r, the directives demand %r (priorities %r; default order %r)"
+                % (real["packing"], want, [prio[p] for p in want], default))
+    by_start = sorted(real["starts"], key=lambda p: real["starts"][p])
+    if by_start != [p for p in want if p in real["starts"]]:
+        return ("data start offsets %r do not follow the order the directives demand %r (contents are pairwise different, "
+                "nothing can be shared)" % ([(p, real["starts"][p]) for p in by_start], want))
+    return None
+
+
+def finish_order(ctx, info, ores, work, seen):
+    """order leg verdict: a disagreement between the model's packing order and the real image is first handed to the
+    independent tool-level oracle (same tree and sort file through gensquashfs -D; Python statement of the sort-file
+    semantics); returns True if the tie is broken"""
+    if ores["drv"][0] != 0:
+        ctx.tie_broken.append("order_dir/order_ops driver failed")
+        ctx.violation("tie-order:driver", "model driver of the order leg failed: rc=%r %s" % ores["drv"], dict(kind="none"),
+                      no_input=True)
+        return True
+    if not ores["bad"]:
+        return False
+    concrete = False
+    for c, probs, pred in ores["bad"][:6]:
+        # (a) the independent statement on the very run that disagrees (same mode, same options)
+        why = order_oracle(info, c, os.path.join(work, "order-search"))
+        if why:
+            concrete = True
+            if "order:layout-order" not in seen:
+                seen.add("order:layout-order")
+                rep = dict(c)
+                rep["files_readable"] = [(unhex(p).decode("latin-1"), len(unhex(d))) for p, d in c["files"]]
+                rep["sortfile_readable"] = unhex(c["sortfile"]).decode("latin-1")
+                rep["model"] = pred
+                ctx.violation("order:layout-order", "gensquashfs %s -b %d%s -j %d with sort file %r: %s"
+                              % ("-D" if c["mode"] == "D" else "-F", c["bs"], " -T" if c["notail"] else "", c["jobs"],
+                                 unhex(c["sortfile"]).decode("latin-1"), why), rep)
+            continue
+        # (b) the full tool-level oracle on the same tree and sort file (through -D)
+        tc = dict(kind="tool", bs=c["bs"], files=c["files"], sortfile=c["sortfile"], notail=c["notail"], export=False,
+                  jobs=c["jobs"], stat_pick=0)
+        tp = tool_case(ctx, info, tc, work)
+        if tp:
+            concrete = True
+            report_tool(ctx, tc, tp, seen)
+    c, probs, pred = ores["bad"][0]
+    if not concrete and "tie-order" not in seen:
+        seen.add("tie-order")
+        ctx.tie_broken.append("order_dir/order_ops = order of the pack_file calls / data offsets of gensquashfs -S")
+        rep = dict(c)
+        rep["files_readable"] = [(unhex(p).decode("latin-1"), len(unhex(d))) for p, d in c["files"]]
+        rep["sortfile_readable"] = unhex(c["sortfile"]).decode("latin-1")
+        rep["model"] = pred
+        rep["problems"] = probs[:4]
+        rep["correspondence"] = ("props/C17 order leg: OrderModel.order_dir / order_ops (scan or adds, post processing, "
+                                 "fstree_sort_files, list handed to pack_files) = files of the real image by data start offset")
+        ctx.violation("tie-order", "gensquashfs %s -b %d%s -j %d with sort file %r lays the files out differently from the "
+                      "model's packing order on %d of %d images, first: %s; the independent Python statement found no violation "
+                      "it can express (it covers sort files of the simple grammar only)"
+                      % ("-D" if c["mode"] == "D" else "-F", c["bs"], " -T" if c["notail"] else "", c["jobs"],
+                         unhex(c["sortfile"]).decode("latin-1"), len(ores["bad"]), ores["stats"]["cases"], probs[0][:600]),
+                      rep, no_input=True)
+    return True
+
+
 def finish_pack(ctx, bad, concrete=False):
     if not bad:
         return
@@ -1224,3 +1341,4 @@ def finish_pack(ctx, bad, concrete=False):
 def setup():
     core.build_model_driver("C17", "ExtractC17.v", os.path.join(HERE, "driver.ml"), stubs_c=os.path.join(HERE, "stubs.c"))
     flagleg.model_driver()
+    orderleg.model_driver()
